@@ -336,6 +336,68 @@ func RunTaggable(policyFile string, seed int64) (*Report, error) {
 			}
 		}
 	}
+	// the same *Event through the same Filter twice (a filter shared by two pipelines of one type, an event that is
+	// sent again): every call filters what it is given at that moment and hands out a private copy of its own
+	type rp struct {
+		ID     string `class:"public"`
+		Secret string `class:"secret"`
+		N      int
+		M      map[string]interface{}
+	}
+	for _, changed := range []bool{false, true} {
+		for _, between := range []int{0, 1, 3} { // other events through the same filter between the two calls
+			rep.Vectors++
+			rep.Runs += 2
+			f := &encrypt.Filter{Wrapper: w}
+			pl := &rp{ID: "id-1", Secret: "repeat-secret-1", N: 1, M: map[string]interface{}{"k1": "repeat-v1"}}
+			e := &eventlogger.Event{Type: "t", Payload: pl, Formatted: map[string][]byte{}}
+			vec := map[string]interface{}{"probe": "same event twice", "payload_changed_between": changed, "other_events_between": between}
+			out1, perr, pan := process(f, e)
+			if pan != nil || perr != nil || out1 == nil {
+				rep.mm(Mismatch{Props: []string{"C10"}, What: "Process (first call of the repeat probe)", Vector: vec, Expected: "forwarded", Observed: fmt.Sprintf("panic=%v err=%v", pan, perr)})
+				continue
+			}
+			out1.FormattedAs("json", []byte("formatted by the first pipeline")) // what the nodes after the filter do with their copy
+			for i := 0; i < between; i++ {
+				process(f, &eventlogger.Event{Type: "t", Payload: &rp{ID: "x", Secret: "y", M: map[string]interface{}{}}, Formatted: map[string][]byte{}})
+			}
+			if changed {
+				pl.ID, pl.N, pl.Secret = "id-2", 2, "repeat-secret-2"
+				pl.M["k2"] = "repeat-v2"
+			}
+			out2, perr, pan := process(f, e)
+			if pan != nil || perr != nil || out2 == nil {
+				rep.mm(Mismatch{Props: []string{"C10"}, What: "Process (second call of the repeat probe)", Vector: vec, Expected: "forwarded", Observed: fmt.Sprintf("panic=%v err=%v", pan, perr)})
+				continue
+			}
+			o2, _ := out2.Payload.(*rp)
+			if o2 == nil {
+				rep.mm(Mismatch{Props: []string{"C10"}, What: "dynamic type of the forwarded payload (repeat probe)", Vector: vec, Expected: "*rp", Observed: reflect.TypeOf(out2.Payload).String()})
+				continue
+			}
+			if out2 == out1 || out2 == e || o2 == pl {
+				rep.mm(Mismatch{Props: []string{"C10"}, What: "the second call must hand out a private copy of its own", Vector: vec, Expected: "an event distinct from the input and from the first call's output", Observed: fmt.Sprintf("same as first output=%v same as input=%v", out2 == out1, out2 == e || o2 == pl)})
+			}
+			if _, ok := out2.Format("json"); ok {
+				rep.mm(Mismatch{Props: []string{"C10"}, What: "format table of the forwarded event (repeat probe)", Vector: vec, Expected: "empty, as the input's", Observed: "carries what was formatted on the first call's output"})
+			}
+			if o2.ID != pl.ID || o2.N != pl.N || len(o2.M) != len(pl.M) {
+				rep.mm(Mismatch{Props: []string{"C10"}, What: "public value / non-string value / map keys of the input at the time of the call", Vector: vec, Expected: fmt.Sprintf("ID=%s N=%d keys=%d", pl.ID, pl.N, len(pl.M)), Observed: fmt.Sprintf("ID=%s N=%d keys=%d", o2.ID, o2.N, len(o2.M))})
+			}
+			if o2.Secret != encrypt.RedactedData {
+				rep.mm(Mismatch{Props: []string{"C09"}, What: "secret field after the second call", Vector: vec, Expected: "redacted", Observed: o2.Secret})
+			}
+			for k, v := range o2.M {
+				if v != encrypt.RedactedData {
+					rep.mm(Mismatch{Props: []string{"C09"}, What: "unclassified map value " + k + " after the second call", Vector: vec, Expected: "redacted", Observed: fmt.Sprint(v)})
+				}
+			}
+			if pl.Secret == encrypt.RedactedData || pl.M["k1"] != "repeat-v1" {
+				rep.mm(Mismatch{Props: []string{"C10"}, What: "Process modified the payload it was given (repeat probe)", Vector: vec, Expected: "untouched", Observed: fmt.Sprint(*pl)})
+			}
+			rep.Nontrivial++
+		}
+	}
 	// nil and zero payloads are forwarded unchanged: the very same event comes back
 	type zs struct {
 		A string `class:"secret"`
